@@ -255,6 +255,14 @@ func run(p *propInfo, tier string, seed int64, replay string) int {
 	// remove stale ones anyway
 	os.RemoveAll(filepath.Join(verifDir, "props", strings.ToLower(p.ID), "testdata", "rapid"))
 
+	if replay == "" {
+		// replay files of earlier runs of this property are stale now
+		if old, _ := filepath.Glob(filepath.Join(verifDir, "replays", p.ID+"-*.json")); len(old) > 0 {
+			for _, f := range old {
+				os.Remove(f)
+			}
+		}
+	}
 	if out, err := build(p); err != nil {
 		fmt.Printf("INCONCLUSIVE property=%s build failed: %v\n%s\n", p.ID, err, out)
 		return 2
